@@ -126,17 +126,14 @@ class ShuffleContinuumSampler(AbstractContinuumSampler):
         new_segments = []
         while len(segments) > 0:
             segment = segments.pop()
-            if segment.start >= pivot - dist:
-                if segment.end <= pivot + dist:
-                    continue
-                else:
-                    new_segments.append(Segment(pivot + dist, segment.end))
-            else:
-                if segment.end > pivot + dist:
-                    new_segments.append(Segment(segment.start, pivot - dist))
-                    new_segments.append(Segment(pivot + dist, segment.end))
-                else:
-                    new_segments.append(Segment(segment.start, pivot - dist))
+            if segment.end <= pivot - dist or segment.start >= pivot + dist:
+                # the segment doesn't intersect the removed one : it is left untouched
+                new_segments.append(segment)
+                continue
+            if segment.start < pivot - dist:
+                new_segments.append(Segment(segment.start, pivot - dist))
+            if segment.end > pivot + dist:
+                new_segments.append(Segment(pivot + dist, segment.end))
         return new_segments
 
     def _random_from_segments(self, segments: List[Segment]) -> float:
